@@ -3,6 +3,13 @@
 import json, sys
 pid, wt, out = sys.argv[1], sys.argv[2], sys.argv[3]
 n = sys.argv[4] if len(sys.argv) > 4 else "3"
+import glob, os
+known = ""
+if len(sys.argv) > 5 and sys.argv[5] == "--avoid-known":
+    ks = []
+    for m in sorted(glob.glob("/verif/seeded/%s-*/meta.json" % pid)):
+        ks.append("    - " + json.load(open(m))["breaks"][:300])
+    known = "\n\nThe following changes are ALREADY KNOWN - do not produce these or close variants of them; find different sites, different mechanisms, different classes of input (also consider code far from the obvious place: helpers, generated tables in src/generated, tools/gen/data.toml, the binary src/bin, query.rs, config.rs, Display impls, trait impls):\n" + "\n".join(ks)
 p = [json.loads(l) for l in open("/verif/properties.jsonl") if json.loads(l)["id"] == pid][0]
 print(f"""You are testing how robust a Rust project's quality gates are. The project is `anything` (udoprog/anything): the `any` CLI, a unit-aware calculator with exact BigRational arithmetic, a hand-written lexer/parser, dimensional analysis and a tantivy-indexed fact lookup.
 
@@ -27,6 +34,8 @@ For each mutation i (1..{n}) write into the directory {out}/m<i>/ :
   - meta.json : {{"property": "{pid}", "summary": "<one sentence: what was changed>", "needs": "<what specific input/sequence/schedule is needed for it to manifest>", "demo_cmd": "<exact command to run the demonstration>", "verified": "<what you ran and observed: build ok, N tests pass with change, demo fails with change, demo passes without change>"}}
 
 Procedure for each mutation: start from a clean tree (`git -C {wt} checkout -- . && git -C {wt} clean -fd tests`), make the change, build, run the full test suite (must pass), write the demo, run it (must fail), save patch.diff (only the src change, not the demo), revert the source change (`git -C {wt} checkout -- src tools`), run the demo again (must pass), then clean up the demo from tests/. You MUST actually run these steps and only keep mutations for which all of them hold; if a candidate fails a step, discard it and try another. Note the existing test-suite is small (58 tests in tests/ and src/rational/tests.rs) and much of the code (e.g. `^`, floor/ceil/round, percentages, descriptions, on-disk index, the binary) is not executed by any test.
+
+{known}
 
 Do not weaken or edit existing tests. Do not add cfg flags. Keep the mutations independent of each other (each patch.diff applies alone to a clean HEAD).
 
